@@ -11,7 +11,7 @@ LEAN_MODULES = ['VotelibProofs.Props.C08']
 GEN_MODULES = ['Divisor', 'Quota', 'Threshold', 'RankScore']
 REQUIRED = ['getNBest_shape', 'plurality_shape', 'quotaSelector_refusals', 'ha_shape', 'haResult_sum', 'ge_keys_nodup',
             'electedOf_map_cand', 'electedOf_append', 'electedOf_replicate_tie', 'getNBest_shape_of_keys',
-            'lr_shape', 'qd_shape', 'quota_pos', 'lr_rounded_quota_zero_witness',
+            'lr_shape', 'qd_shape', 'lr_shape_pos', 'qd_shape_pos', 'lr_refusals', 'quota_pos', 'lr_quota_nonpositive_refused',
             'getNBest_struct', 'breakSecondOrder_shape', 'copeland_shape', 'schulze_shape', 'minimax_shape',
             'positional_shape', 'positional_refusals', 'scorerOK_of_wf', 'approval_shape', 'approval_refusals',
             'quotaSelector_shape', 'ha_refusals', 'list_tiebreaker_shape', 'alternative_threshold_shape', 'input_order_shape', 'abs_threshold_shape', 'rel_threshold_shape', 'openlist_shape',
@@ -226,15 +226,16 @@ NOT_VERIFIED = ['families listed under unproved: the entry names the statement t
                 'QuotaDistributor and QuotaSelector are documented as not filling all seats: "exactly n" is read as "at most n" for them (DESIGN 12.2); '
                 'candidates present for a Condorcet evaluator = candidates occurring in a pairwise entry',
                 'correspondence is order-insensitive among individually elected candidates where the implementation iterates a frozenset (approval and '
-                'score ballots, shared ranks): the elected set and the tie places are compared; AllocatedScore: ValueError and IndexError are identified '
-                '(which comes first depends on the iteration order of a Tie, open finding C12-allocated-score-tie-order)',
+                'score ballots, shared ranks): the elected set and the tie places are compared; AllocatedScore (outcome depends on the iteration '
+                'order of a Tie, open finding C12-allocated-score-tie-order): on a difference the real evaluator is re-run with candidate objects that '
+                'hash to their id (the order the model assumes) and that run is compared',
                 'Benham / Tideman alternative are modelled for one seat only (C05): n >= 2 raises AssertionError / TypeError (outside sentence 3: observation)',
                 'the Condorcet evaluators are modelled on the pairwise dictionary produced by the REAL RankedToCondorcetVotes converter (C13 owns its model)']
 
 
 def generate(rng, tier):
     F = list(fams().values())
-    per = 10 if tier == 'quick' else 120
+    per = 10 if tier == 'quick' else 600
     for f in F:
         for t in range(per):
             m = rng.randint(2, 6 if f.vtype in ('simple', 'approval') else 5)
@@ -458,9 +459,17 @@ def compare(case, iobs, mobs):
         # compares the shape: elected set + tie places)
         if isinstance(mobs, dict) and 'sel' in mobs:
             mobs = mobs['sel']
-        if case['family'] == 'allocated_score_hare' and isinstance(iobs, dict) and isinstance(mobs, dict) and \
-                {iobs.get('err'), mobs.get('err')} <= {'ValueError', 'IndexError'}:
-            return None      # which of the two crashes comes first depends on the iteration order of a Tie (open finding C12-allocated-score-tie-order)
+        a, b = sel_unordered(iobs), sel_unordered(mobs)
+        if a != b and case['family'] == 'allocated_score_hare':
+            # the outcome of allocated score depends on the order in which tied round winners are processed = the iteration order
+            # of a Tie frozenset (open finding C12-allocated-score-tie-order).  The model reads it as ascending candidate id: re-run the
+            # REAL evaluator with candidate objects that hash to their id (C12's device) and compare that run
+            from props.C12 import K
+            ids = 1 + max(c for b, _ in case['prof'] for c, _ in b)
+            alt = fam_mod.run_family(fams()[case['family']], case['prof'], case['n'], Names(names=[K(i) for i in range(ids)]))
+            a = sel_unordered(alt)
+            if a == b:
+                return None
         a, b = sel_unordered(iobs), sel_unordered(mobs)
         return None if a == b else f'impl={json.dumps(a)} model={json.dumps(b)} (order-insensitive: frozenset ballots)'
     if (case['family'] in POSITIONAL + ('baldwin', 'bucklin', 'oklahoma') and has_shared(case['prof'])) or case['family'] in ('approval_av', 'approval_sav'):
@@ -534,7 +543,6 @@ LEVEL_TEXT = ('For every modelled evaluator family the result-shape schema (exac
               'AV, SAV, PAV, SPAV, score voting, majority judgment (shape; refusals for tie_breaking=plus), STAR, Baldwin, thresholds, open list, list tie-breaker, '
               'Condorcet winner / Smith / Schwartz sets, InputOrderSelector. Where the code violates the schema the strongest true part is proved (_partial) and the '
               'violation is a kernel-checked witness + open finding: ranked pairs and PreferenceAddition (short lists), allocated score (tie listed once, ValueError / '
-              'IndexError), majority judgment default tie-break (StatisticsError), Benham / Tideman (IndexError / KeyError), rounded quotas that reach 0 '
-              '(ZeroDivisionError), score truncation (StatisticsError).')
+              'IndexError), majority judgment default tie-break (StatisticsError), Benham / Tideman (IndexError / KeyError), score truncation (StatisticsError).')
 LEVEL_NOTE = ('Trusted: Lean kernel + standard axioms; the models are tied to the code by the correspondence run of this check (and of the owning properties). '
               'Partial: 4 random/md5-based auxiliary selectors are decided by the oracle only; wrappers and nested-vote evaluators are exercised by C14/C07/C18.')
